@@ -99,7 +99,7 @@ func init() {
 					if !holds(v.Type(), 0, map[types.Type]bool{}) {
 						continue
 					}
-					full := rel(p.PkgPath) + "." + nm
+					full := canonObjName(v)
 					names = append(names, full)
 					byName[full] = v
 				}
